@@ -39,6 +39,24 @@ def schedule_events(w, sched, o):
     return evs
 
 
+def overlap_events(w, sched, o):
+    """like schedule_events, but every batch after the first starts with a copy of the previous batch's last sample.
+    NOT used by C05: the property speaks of *cutting* a signal into batches (a partition); feeding a sample twice is
+    outside it (and bounded operators then emit non-monotone time-stamps)."""
+    evs = []
+    m = max(len(b) for b in sched.values())
+    for i in range(m):
+        batch = {}
+        for v in w:
+            if i < len(sched[v]):
+                lo, hi = sched[v][i]
+                batch[v] = ([list(w[v][lo - 1])] if i > 0 else []) + w[v][lo:hi]
+            else:
+                batch[v] = []
+        evs.append(ev_ct("update", batch, o))
+    return evs
+
+
 def staggered_events(rng, w, sched, o):
     """each update carries the next batch of a random non-empty subset of the variables (the others get [])"""
     evs = []
